@@ -78,18 +78,31 @@ class MultiObjectiveExperimenter(experimenter.Experimenter):
   def evaluate(self, suggestions: Sequence[pyvizier.Trial]):
     suggestions_copy = copy.deepcopy(suggestions)
     measurements = [pyvizier.Measurement() for _ in suggestions]
+    # A point that is infeasible for one of the objectives is infeasible.
+    infeasibility_reasons = [None for _ in suggestions]
     for name, exptr in self._exptrs.items():
       exptr.evaluate(suggestions_copy)
       exptr_metric_name = self._exptr_to_metric[name]
       for idx, copied in enumerate(suggestions_copy):
+        if copied.infeasible:
+          if infeasibility_reasons[idx] is None:
+            infeasibility_reasons[idx] = (
+                copied.infeasibility_reason or f'{name} is infeasible.'
+            )
+          continue
         measurement = measurements[idx]
         assert copied.final_measurement is not None
         measurement.metrics[name] = copied.final_measurement.metrics[
             exptr_metric_name
         ]
 
-    for suggestion, measurement in zip(suggestions, measurements):
-      suggestion.complete(measurement)
+    for suggestion, measurement, reason in zip(
+        suggestions, measurements, infeasibility_reasons
+    ):
+      if reason is None:
+        suggestion.complete(measurement)
+      else:
+        suggestion.complete(pyvizier.Measurement(), infeasibility_reason=reason)
 
     return suggestions
 
